@@ -1189,6 +1189,29 @@ func c02ShapesRound4(emit func(hx.Case)) {
 			emit(l.toCase())
 		}
 	}
+	// 376b90f: a path item file that is itself a reference (to a file in a sub-directory whose parameter is relative
+	// to THAT directory), reached directly and through a fragment hop; and such a file referring to itself
+	for _, hop := range []bool{false, true} {
+		l := newLayout("file", dir+"/root.json")
+		pi := c02Val("pathItem", "p2")
+		c02Set2(pi, c02Slots[17], c02Ref("side.json#/components/parameters/N", "leaf"))
+		l.raw("/r/b/sub/p2.json", pi)
+		l.raw("/r/b/p1.json", jm{"$ref": "sub/p2.json"})
+		c02Put(l.file("/r/b/sub/side.json"), "parameter", "N", c02Val("parameter", "N@sub"))
+		c02Put(l.file("/r/b/side.json"), "parameter", "N", c02Val("parameter", "decoy@b"))
+		c02Put(l.file(dir+"/side.json"), "parameter", "N", c02Val("parameter", "decoy@a"))
+		c02Put(l.file(dir+"/root.json"), "pathItem", "/x", c02Ref("../b/p1.json", "r1"))
+		if hop {
+			c02Put(l.file(dir+"/root.json"), "pathItem", "/y", c02Ref("#/paths/~1x", "r0"))
+		}
+		emit(l.toCase())
+	}
+	{
+		l := newLayout("file", dir+"/root.json")
+		l.raw("/r/b/p1.json", jm{"$ref": "p1.json"})
+		c02Put(l.file(dir+"/root.json"), "pathItem", "/x", c02Ref("../b/p1.json", "r1"))
+		emit(l.toCase())
+	}
 	// documents that share a path on two hosts (the documents cache is keyed by the whole URI)
 	for _, kind := range []string{"schema", "response", "pathItem"} {
 		for _, same := range []bool{false, true} {
